@@ -681,7 +681,7 @@ func baseCfg(r *sim.Rng, i int, thorough bool, blocks int) tssworld.Cfg {
 		Blocks: blocks, PSubmit: sim.Pick(r, []int{50, 90}), LazyMembers: r.Intn(2), Hostile: true, DEOps: true,
 		ReqPerBlockPct: 30, CreationPeriod: uint64(sim.Pick(r, []int{6, 20})), Inflation: i%2 == 0,
 		Replicas: 1, NumVals: r.Range(2, 4), ExtraUsers: 3,
-		MempoolNoise: i%3 != 0, RestartEvery: int64(sim.Pick(r, []int{0, 3, 7})),
+		MempoolNoise: i%3 != 0, RestartEvery: int64(sim.Pick(r, []int{0, 3, 7})), AbortedProposalPct: sim.Pick(r, []int{0, 25, 50}),
 	}
 	if thorough {
 		cfg.Replicas, cfg.ReplicasConcurrent = 2, true
@@ -777,7 +777,7 @@ func main() {
 		run.Count("msg-types-exercised", len(ks))
 		run.Extra("msg_types", ks)
 	}
-	for _, c := range []string{"params:accepted", "params:rejected-by-validation", "authority:transition-proposed", "blocks-compared-across-replicas", "sweep:param-values-accepted", "replica-restarted-from-db", "checktx-on-primary-only", "params:executed-then-rolled-back", "price-regime:tiny-ended", "price-regime:near-2^64-ended", "tx:feeds:submit-extreme:ok"} {
+	for _, c := range []string{"params:accepted", "params:rejected-by-validation", "authority:transition-proposed", "blocks-compared-across-replicas", "sweep:param-values-accepted", "replica-restarted-from-db", "checktx-on-primary-only", "params:executed-then-rolled-back", "proposal-executed-optimistically-then-abandoned(primary only)", "price-regime:tiny-ended", "price-regime:near-2^64-ended", "tx:feeds:submit-extreme:ok"} {
 		run.Require(c, 1)
 	}
 	run.Require("msg-types-exercised", 33) // 30 band Msg types by tx + bank/staking; the other 9 (UpdateParams x7 incl. oracle by authority, TransitionGroup, ForceTransitionGroup) go through the authority path
@@ -798,6 +798,7 @@ func paramName(s string) string {
 type divMon struct {
 	g                *gen
 	restarts, checks int
+	aborted          int
 }
 
 func (m *divMon) OnTx(h *tssworld.Hist, tx *tssworld.TxRec) {
@@ -819,5 +820,6 @@ func (m *divMon) OnEndBlock(h *tssworld.Hist, b *tssworld.BlockObs) {
 	h.Run.Count("blocks-compared-across-replicas", 1)
 	h.Run.Count("replica-restarted-from-db", h.W.Restarts-m.restarts)
 	h.Run.Count("checktx-on-primary-only", h.W.CheckTxs-m.checks)
-	m.restarts, m.checks = h.W.Restarts, h.W.CheckTxs
+	h.Run.Count("proposal-executed-optimistically-then-abandoned(primary only)", h.W.AbortedProposals-m.aborted)
+	m.restarts, m.checks, m.aborted = h.W.Restarts, h.W.CheckTxs, h.W.AbortedProposals
 }
